@@ -871,6 +871,9 @@ func main() {
 		runBalloonParent(r)
 	}
 	fmt.Fprintf(os.Stderr, "C07: balloon family done in %.1fs\n", time.Since(t1).Seconds())
+	if famOn("mapping") {
+		runStatusMapping(r)
+	}
 
 	// fold the per-worker allocation maxima
 	var notes []string
@@ -976,7 +979,7 @@ func main() {
 		len(cfgs), cfgNames, len(allLines()), len(targetsL), len(slots), nLetters,
 		map[bool]string{true: " (quick tier: the 2-letter sets are left out for the request lines refused at the request line itself - empty method or version JUNK)",
 			false: fmt.Sprintf(" plus every set of 3 letters for the %d request lines that reach a handler", len(handlerLines()))}[quick],
-		len(seeds), len(editBytes), pairSeedCount(quick), map[bool]string{true: " (quick tier: pairs on the configs default and customctx only)", false: ""}[quick], f4Rule(quick), f5Rule(), f6Rule(), f7Rule(), f8Rule(), len(helpers), len(attackStrings()), len(balloonCases(quick)), cpuCapSeconds, cpuCapBalloonSeconds, budgetA, budgetB)
+		len(seeds), len(editBytes), pairSeedCount(quick), map[bool]string{true: " (quick tier: pairs on the configs default and customctx only)", false: ""}[quick], f4Rule(quick), f5Rule(), f6Rule(), f7Rule(), f8Rule()+f9Rule(), len(helpers), len(attackStrings()), len(balloonCases(quick)), cpuCapSeconds, cpuCapBalloonSeconds, budgetA, budgetB)
 	ev := core.Evidence{
 		Level:       "exploration",
 		Exhaustive:  true,
